@@ -42,7 +42,7 @@ RULE = ("each run draws a history of 0-6 store operations followed by a target o
         "tick and fault kind); distinct = distinct (operation, tick, fault kind, outcome, statement)"
         "; non-trivial = executions in which a fault actually fired")
 PROBES = ["crash_fired", "error_fired", "replace_import", "merge_import", "defective_import",
-          "duplicate_host_import", "conflict_callback_raises", "round_trip", "weird_hostname", "via_cli",
+          "duplicate_host_import", "conflict_callback_raises", "round_trip", "weird_hostname", "via_cli", "lookalike_family", "big_import_crash_case",
           "crash_between_statement_and_commit"]
 COMPONENTS = {
     "real": ["nauyaca.security.tofu.TOFUDatabase", "sqlite3 on a real file (rollback journal, hot-"
@@ -57,7 +57,12 @@ ASSUMPTIONS = ["crash points are SQL statement and commit boundaries; a crash in
 HOSTNAMES = ["example.com", "a.b.c.example.org", "::1", "2001:db8::7", "[::1]", "host:with:colons",
              'quo"te.sim', "back\\slash.sim", "hash#tag.sim", "eq=sign.sim", "br[ack]et.sim",
              "new\nline.sim", "ünï-çödé.sim", "日本.sim", "x" * 300, "tab\there", "sp ace",
-             "dot.", ".", "'single'", "a", "hosts", "_metadata"]
+             "dot.", ".", "'single'", "a", "hosts", "_metadata",
+             # look-alike families: SQL LIKE wildcards and ASCII case
+             "srv_1.lan", "srv-1.lan", "srvx1.lan", "100%.example", "100-percent.example",
+             "EXAMPLE.COM", "Example.com"]
+FAMILY = ["srv_1.lan", "srv-1.lan", "srvx1.lan", "100%.example", "100-percent.example",
+          "EXAMPLE.COM", "Example.com", "example.com"]
 CERTS = fx.SERVER_CERTS
 
 
@@ -264,6 +269,90 @@ def do_op(db, op, scratch, tag):
     return "ok"
 
 
+def big_import_case(ch, res, db, base_db, scratch, hist):
+    """An import large enough to outgrow sqlite's page cache, killed late: what the dead
+    process leaves on disk (database + journal) must recover to before or after."""
+    import tomli_w
+    from nauyaca.security.tofu import TOFUDatabase
+    for i in range(40):
+        db.trust(f"seed-{i}.example", 1965, load_cert(CERTS[i % len(CERTS)]))
+    before = triples(table(base_db))
+    n = ch.pick("bign", [9000, 12000])
+    merge = bool(ch.choose("bigmerge", 2))
+    fp = fx.fp(CERTS[0])
+    hosts = {}
+    for i in range(n):
+        h = f"host-{i:06d}-" + "x" * 44 + ".example"
+        hosts[f"{h}:1965"] = {"hostname": h, "port": 1965, "fingerprint": fp,
+                              "first_seen": "2023-01-01T00:00:00+00:00",
+                              "last_seen": "2024-01-01T00:00:00+00:00"}
+    f = pathlib.Path(scratch, "big.toml")
+    f.write_bytes(tomli_w.dumps({"hosts": hosts}).encode())
+    work = os.path.join(scratch, "work.db")
+
+    def restore():
+        for suffix in ("", "-journal", "-wal", "-shm"):
+            if os.path.exists(work + suffix):
+                os.remove(work + suffix)
+        shutil.copy2(base_db, work)
+    restore()
+    SEAM.reset(None)
+    SEAM.enabled = True
+    TOFUDatabase(pathlib.Path(work)).import_toml(f, merge=merge)
+    SEAM.enabled = False
+    nticks = SEAM.tick
+    after = triples(table(work))
+    evals, sigs = 1, set()
+    hist.append(f"TARGET big import of {n} hosts merge={merge} ({nticks} ticks)")
+    for k in sorted({nticks, nticks - 1, nticks - 7, nticks - 200, (nticks * 3) // 4, nticks // 2}):
+        if k < 3:
+            continue
+        restore()
+        crash_dir = os.path.join(scratch, "crashed")
+        shutil.rmtree(crash_dir, ignore_errors=True)
+        SEAM.reset(None)
+        SEAM.enabled = True
+        SEAM.fault_at, SEAM.fault_kind, SEAM.crash_dir = k, "crash", crash_dir
+        try:
+            TOFUDatabase(pathlib.Path(work)).import_toml(f, merge=merge)
+            oc = "returned"
+        except SimCrash:
+            oc = "crashed"
+        except Exception as e:  # noqa
+            oc = "raised:" + type(e).__name__
+        fired = SEAM.fired
+        SEAM.enabled = False
+        SEAM.fault_at = None
+        evals += 1
+        if fired is None or oc != "crashed":
+            continue
+        res.stats["crash_fired"] += 1
+        path = os.path.join(crash_dir, "work.db")
+        try:
+            TOFUDatabase(pathlib.Path(path))
+            got = triples(table(path))
+        except Exception as e:  # noqa
+            got = {"<unreadable>": repr(e)[:80]}
+        sigs.add((("big-import", merge, k == nticks, got == before, got == after), True))
+        if got != before and got != after:
+            res.violate(f"C12/not-atomic-under-crash/big-import-{'merge' if merge else 'replace'}",
+                        f"process killed at tick {k} of {nticks} of a {n}-host import; after reopening "
+                        f"the store holds {len(got)} rows - neither the {len(before)} before nor the "
+                        f"{len(after)} after", tick=k, ticks=nticks, hosts=n, merge=merge,
+                        rows_after_crash=len(got), history=hist)
+    res.stats["big_import_crash_case"] += 1
+    res.stats["target_executions"] += evals
+    res.signature = hashlib.sha256(repr(("big", n, merge)).encode()).hexdigest()[:16]
+    res.digest = res.signature
+    res.nontrivial = True
+    res.sample = {"history": hist[-2:], "executions": evals}
+    res.extra_evaluations = evals
+    res.extra_distinct = sigs
+    SEAM.enabled = True
+    SEAM.reset(None)
+    return res
+
+
 def run_one(ch):
     from nauyaca.security.tofu import TOFUDatabase
     res = RunResult()
@@ -275,6 +364,14 @@ def run_one(ch):
     nprefix = ch.choose("nprefix", 7)
     hist = []
     model = {}
+    if ch.chance("family", 0.25):
+        # the store already knows a family of look-alike names
+        for h in FAMILY:
+            db.trust(h, 1965, load_cert(CERTS[ch.choose("famcert", len(CERTS))]))
+        hist.append("pre-trusted look-alike family " + ", ".join(FAMILY))
+        res.stats["lookalike_family"] += 1
+    if ch.chance("bigimport", 0.002):
+        return big_import_case(ch, res, db, base_db, scratch, hist)
     for i in range(nprefix):
         op = gen_op(ch, "pre", scratch, i)
         try:
